@@ -98,6 +98,32 @@ def attrs? (s : String) : Option Attrs :=
 
 def evsOut (r : Out (List (Ev Item))) : String := r.render (evsS itemS)
 
+/-- `lists-die` (and `lists-dd`, which the Rust side additionally cross-checks with llvm-dwarfdump) -/
+def handleDie : List String → Option String
+  | [c, dwo, root, die, addr, ranges, rnglists, loc, loclists] => do
+      let c ← cfg? c; let dwo ← bool? dwo; let root ← attrs? root; let die ← attrs? die
+      let addr ← parseHex addr; let ranges ← parseHex ranges; let rnglists ← parseHex rnglists
+      let loc ← parseHex loc; let loclists ← parseHex loclists
+      let secs : Sections := ⟨addr, ranges, rnglists, loc, loclists⟩
+      match unitBases c dwo secs root with
+      | .ok u =>
+        let locs := die.filterMap fun (n, v) => if n = .location then some v else none
+        let locS := match locs.head? with
+          | none => "none"
+          | some v =>
+            match attrLocations u secs v with
+            | .ok none => "none"
+            | .ok (some evs) => evsOut (.ok evs)
+            | .err e => "err " ++ e.name
+            | .panic w => "panic " ++ w
+            | .diverge => "diverge"
+        let us := evsOut (dieRanges u secs root)
+        let ds := evsOut (dieRanges u secs die)
+        let lp := u.lowPc; let ab := u.addrBase; let rb := u.rnglistsBase; let lb := u.loclistsBase
+        pure s!"ok {lp},{ab},{rb},{lb} | unit:{us} | die:{ds} | loc:{locS}"
+      | r => pure (r.render fun _ => "")
+  | _ => none
+
 def handle (op : String) (args : List String) : Option String :=
   match op, args with
   | "lists-raw", [k, c, dwo, off, legacy, v5] => do
@@ -127,28 +153,20 @@ def handle (op : String) (args : List String) : Option String :=
   | "lists-getaddr", [c, sec, base, idx] => do
       let c ← cfg? c; let sec ← parseHex sec; let base ← base.toNat?; let idx ← idx.toNat?
       pure ((getAddress c sec base idx).render toString)
-  | "lists-die", [c, dwo, root, die, addr, ranges, rnglists, loc, loclists] => do
-      let c ← cfg? c; let dwo ← bool? dwo; let root ← attrs? root; let die ← attrs? die
-      let addr ← parseHex addr; let ranges ← parseHex ranges; let rnglists ← parseHex rnglists
-      let loc ← parseHex loc; let loclists ← parseHex loclists
-      let secs : Sections := ⟨addr, ranges, rnglists, loc, loclists⟩
-      match unitBases c dwo secs root with
-      | .ok u =>
-        let locs := die.filterMap fun (n, v) => if n = .location then some v else none
-        let locS := match locs.head? with
-          | none => "none"
-          | some v =>
-            match attrLocations u secs v with
-            | .ok none => "none"
-            | .ok (some evs) => evsOut (.ok evs)
-            | .err e => "err " ++ e.name
-            | .panic w => "panic " ++ w
-            | .diverge => "diverge"
-        let us := evsOut (dieRanges u secs root)
-        let ds := evsOut (dieRanges u secs die)
+  | "lists-copyrel", [c, dwoRoot, skelRoot, addr] => do
+      let c ← cfg? c; let dwoRoot ← attrs? dwoRoot; let skelRoot ← attrs? skelRoot
+      let addr ← parseHex addr
+      let secs : Sections := ⟨addr, [], [], [], []⟩
+      let r : Out UnitCtx := do
+        let skel ← unitBases c false secs skelRoot
+        -- the `.dwo` file has no `.debug_addr`
+        let split ← unitBases c true ⟨[], [], [], [], []⟩ dwoRoot
+        pure (copyRelocated split skel)
+      pure (r.render fun u =>
         let lp := u.lowPc; let ab := u.addrBase; let rb := u.rnglistsBase; let lb := u.loclistsBase
-        pure s!"ok {lp},{ab},{rb},{lb} | unit:{us} | die:{ds} | loc:{locS}"
-      | r => pure (r.render fun _ => "")
+        s!"{lp},{ab},{rb},{lb}")
+  | "lists-dd", args => handleDie args
+  | "lists-die", args => handleDie args
   | _, _ => none
 
 end Gimli.Drv.C08
